@@ -23,7 +23,7 @@ func init() {
 		RuleDocs: []string{
 			"C09.R7 per-request-value analysis of the coupling handler (conditional constant propagation, closures and function values followed): each direction of an (error, feedback) pair ends made or broken as the request value says",
 			"C09.R1 counter/set pairing on SSA: MapUpdate/delete/element-store on the sources table vs stores to the counter, control dependence on a Lookup of the same map and key",
-			"C09.R1w who may reset: call-graph reachability of the wholesale reset",
+			"C09.R1w who may reset: call-graph reachability of the wholesale reset; every concrete method the stop-coupling request's interface call can reach passes a call leading to the reset on each return that may report success",
 			"C09.R2 guard dominance (E6) on inserted keys and table indices; disequality of the two endpoints",
 			"C09.R3 reported state: range over the same field; no struct field of the reported type; must-pass-through of recompute+publish after every table-writing call in request closures",
 			"C09.R4 unconditional refresh in the distribution loop; per-processor trigger-list map; merge loop reads the keys of the receiver's own set; fan-out passes the receiver's own list",
